@@ -53,9 +53,14 @@ func (e *lBCDEncoder) Decode(src []byte, length int) ([]byte, int, error) {
 		return nil, 0, fmt.Errorf("not enough data to decode. expected len %d, got %d", read, len(src))
 	}
 
-	_, err := dec.Decode(dst, src[:read])
+	n, err := dec.Decode(dst, src[:read])
 	if err != nil {
 		return nil, 0, utils.NewSafeError(err, "failed to perform BCD decoding")
+	}
+	// a final byte holding a digit and the filler nibble decodes to a single
+	// digit: fewer digits than requested is bad BCD data
+	if n != decodedLen {
+		return nil, 0, utils.NewSafeError(bcd.ErrBadBCD, "failed to perform BCD decoding")
 	}
 
 	// because it's left aligned, we return data from
